@@ -41,6 +41,8 @@ def rhs_matrix(ode, max_tries: int | None = None) -> sympy.Matrix:
         If the maximum number of tries is reached
     """
     intermediates = {x.symbol: x.expr for x in ode.intermediates}
+    # A state derivative can be referenced by name from another expression
+    intermediates.update({x.symbol: x.expr for x in ode.state_derivatives})
     rhs = sympy.Matrix([state.expr for state in ode.sorted_state_derivatives()])
 
     if max_tries is None:
